@@ -1,7 +1,7 @@
 //! C15 - lanes that drive the real binary only (no in-process use of the CLI's keyring module), so they
 //! keep working even if keyring.rs no longer compiles into the monitor.
 
-use crate::cli::{Cmd, Exit, WorkDir};
+use crate::cli::{Cmd, Exit, Stdin, WorkDir};
 use crate::ctx::Ctx;
 use crate::refspec;
 use crate::util::{b64, hex, unb64, Rng};
@@ -239,7 +239,68 @@ fn cli_long_passwords(ctx: &Ctx) {
     }
 }
 
+
+/// (a) a conforming key whose blob ends in a zero byte, cut by that byte and re-encoded, and a conforming key with zero
+/// bytes appended, offered to extract-pub / change-pass: refused. (b) `key generate --env-pass` locks under
+/// KESTREL_PASSWORD - the documented variable - whatever else the environment holds: the reference opens the new key
+/// with exactly that password and not with the value of a stray KESTREL_NEW_PASSWORD.
+fn cli_other_lengths_and_generate(ctx: &Ctx) {
+    let mut rng = Rng::fork(ctx.seed, "C15-cli-zero-tail");
+    let wd = WorkDir::new("c15z");
+    let pw = "zero tail";
+    let mut r2 = Rng::fork(ctx.seed, "C15-cli-zero-tail-keys");
+    match refspec::lock_sk_with_zero_tail(pw.as_bytes(), &rng.arr32(), 1, || r2.arr32()) {
+        None => ctx.inconclusive("C15 cli: no blob with a zero tail found"),
+        Some((good, _sk)) => {
+            let blob = unb64(&good).unwrap();
+            let mut ext = blob.clone();
+            ext.push(0);
+            for (what, s) in [("trailing zero byte cut off (83 bytes)", b64(&blob[..83])), ("zero byte appended (85 bytes)", b64(&ext))] {
+                for cmd in ["extract-pub", "change-pass"] {
+                    let o = Cmd::new(&wd.path, &["key", cmd, &s, "--env-pass"]).pass(pw).env("KESTREL_NEW_PASSWORD", "n").run();
+                    ctx.eval();
+                    if o.exit == Exit::Code(1) && o.has_error_line() && o.stdout.is_empty() {
+                        ctx.seen("cli: blob of another length differing only by zero bytes refused");
+                        ctx.distinct(&format!("cli|zerotail|{}|{}", what, cmd));
+                    } else if o.exit == Exit::Timeout {
+                        ctx.inconclusive("C15 cli: timeout");
+                    } else {
+                        ctx.violation("C15:cli:malformed-string-accepted:blob-of-another-length-that-differs-only-by-zero-bytes", json!({"class": what, "command": cmd, "string": s, "conforming_string": good, "exit": o.exit.describe(), "stdout": o.stdout_s(), "stderr": o.stderr_s()}));
+                    }
+                }
+            }
+        }
+    }
+    for (i, (w, stray)) in [("generate-pw", Some("left over from a change-pass")), ("", Some("stray")), ("p\u{e4}ss \u{2713}", Some("")), ("only-the-documented-variable", None)].iter().enumerate() {
+        let mut c = Cmd::new(&wd.path, &["key", "generate", "--env-pass"]).pass(w).stdin(Stdin::Bytes(format!("gen-{}\n", i).into_bytes()));
+        if let Some(sv) = stray {
+            c = c.env("KESTREL_NEW_PASSWORD", sv);
+        }
+        let o = c.run();
+        ctx.eval();
+        let l = o.stdout_s().lines().find_map(|l| l.strip_prefix("PrivateKey = ").map(|x| x.trim().to_string()));
+        let p = o.stdout_s().lines().find_map(|l| l.strip_prefix("PublicKey = ").map(|x| x.trim().to_string()));
+        let case = || json!({"KESTREL_PASSWORD": w, "KESTREL_NEW_PASSWORD": stray, "exit": o.exit.describe(), "stdout": o.stdout_s(), "stderr": o.stderr_s()});
+        match (&o.exit, l, p) {
+            (Exit::Timeout, _, _) => ctx.inconclusive("C15 cli: timeout"),
+            (Exit::Code(0), Some(l), Some(p)) => match refspec::unlock_sk(&l, w.as_bytes()) {
+                Ok(sk) if refspec::decode_pk(&p) == Some(refspec::pubkey_of(&sk)) => {
+                    ctx.seen("cli: key generate locks under KESTREL_PASSWORD whatever else is in the environment");
+                    ctx.distinct(&format!("cli|generate|{}", i));
+                }
+                _ => {
+                    let mut v = case();
+                    v["opens_under_the_stray_variable_instead"] = json!(stray.map(|sv| refspec::unlock_sk(&l, sv.as_bytes()).is_ok()));
+                    ctx.violation("C15:cli:generated-key-does-not-unlock-with-the-password-it-was-generated-under", v);
+                }
+            },
+            _ => ctx.violation("C15:cli:key-generate-failed", case()),
+        }
+    }
+}
+
 pub fn cli_lanes(ctx: &Ctx) {
+    cli_other_lengths_and_generate(ctx);
     cli_long_passwords(ctx);
     ctx.require("cli: long password", 5);
     cli_layer(ctx);
